@@ -40,7 +40,15 @@ def _cast_z(x):
   return {**x, 'z': x['z'].astype(np.float64) * 0.5 + 1}
 
 
-CHAINS = {'none': [], 'add': [_add], 'cast': [_cast], 'add_cast': [_add, _cast_z], 'cast_add': [_cast, _add]}
+def _inplace(x):
+  """A preprocessing fn that modifies the dict it is given (the library documents that it guards against these)."""
+  x['z'] = x['i'] * 2 + 1
+  x['i'] = x['i'].astype(np.int64) + 1
+  return x
+
+
+CHAINS = {'none': [], 'add': [_add], 'cast': [_cast], 'add_cast': [_add, _cast_z], 'cast_add': [_cast, _add],
+          'inplace': [_inplace]}
 
 
 def ref_processed(raw, chain):
@@ -55,6 +63,9 @@ def ref_processed(raw, chain):
   elif chain == 'cast_add':
     out['i'] = raw['i'].astype(np.int64) + 1
     out['z'] = out['i'] * 2 + 1
+  elif chain == 'inplace':
+    out['z'] = raw['i'] * 2 + 1
+    out['i'] = raw['i'].astype(np.int64) + 1
   return out
 
 
@@ -89,6 +100,8 @@ def run_case(case):
   for b1, b2 in zip(first, second):
     require(set(b1) == set(b2) and all(same(np.asarray(b1[k]), np.asarray(b2[k])) for k in b1),
             'iterating the same view again gives different batches')
+  require(set(ds.raw_examples) == set(snap), 'the dataset\'s raw_examples gained or lost features during batching',
+          sorted(snap), sorted(ds.raw_examples))
   for k in snap:
     require(same(np.asarray(ds.raw_examples[k]), snap[k]), 'raw_examples[%r] was mutated by batching' % k)
 
